@@ -72,6 +72,14 @@ func (s *HarnessSpec) tuples(tier string) []map[string]int {
 	return out
 }
 
+func step(lo, hi, st int) []int {
+	var r []int
+	for i := lo; i <= hi; i += st {
+		r = append(r, i)
+	}
+	return r
+}
+
 func rng(lo, hi int) []int {
 	var r []int
 	for i := lo; i <= hi; i++ {
@@ -225,9 +233,16 @@ func apiSpecs() []*HarnessSpec {
 			lq3Q = []int{1, 3}
 			lq3T = []int{0, 1, 2, 3, 4, 5}
 		}
+		// sweep family: growing prefixes of a fixed pseudo-random key list (shape/alignment diversity)
+		swQ, swT := step(100, 150, 1), step(100, 150, 1)
+		lqS := []int{0}
+		if len(p.lqQ) > 1 {
+			swQ = step(100, 150, 5)
+			lqS = []int{1}
+		}
 		out = append(out, &HarnessSpec{Name: "l3_api", Pkg: "trie", Property: p.prop, Witness: 1,
-			Quick:    []Grid{l3Grid(p.check, skQ, p.small[:2], enc3, []int{0, 2}, lq3Q)},
-			Thorough: []Grid{l3Grid(p.check, skT, p.opts, p.encs, []int{0, 1, 2, 3}, lq3T)},
+			Quick:    []Grid{l3Grid(p.check, skQ, p.small[:2], enc3, []int{0, 2}, lq3Q), l3Grid(p.check, swQ, p.small[:2], enc3, []int{0, 3}, lqS)},
+			Thorough: []Grid{l3Grid(p.check, skT, p.opts, p.encs, []int{0, 1, 2, 3}, lq3T), l3Grid(p.check, swT, p.small, enc3, []int{0, 1, 3}, append(lqS, 2))},
 			Note:     "L3 (concrete skeleton key sets, symbolic query): " + p.note})
 	}
 	// ---- C04 scans ----
@@ -250,6 +265,7 @@ func apiSpecs() []*HarnessSpec {
 		Note: "L2: NewIter/ScanFrom/ScanFromTo on Complete tries with symbolic start/end, inclusivities and withValue symbolic; the t-th yield must be the t-th retained key in range with its encoded value; exhaustion persists. n=2 key bytes range over a 6-letter nibble-diverse alphabet (the scan code forks per label bit)"})
 	out = append(out, &HarnessSpec{Name: "l3_api", Pkg: "trie", Property: "C04", Witness: 1,
 		Quick: []Grid{{"skel": {0, 1, 2, 3}, "opt": {9}, "enc": {1}, "runs": {0, 2}, "check": {4}, "lq": {1, 2}, "api": {0}, "le": {1}, "stop": {0}},
+			{"skel": step(100, 112, 2), "opt": {9}, "enc": {1}, "runs": {0, 3}, "check": {4}, "lq": {1}, "api": {0}, "le": {1}, "stop": {0}},
 			{"skel": {0}, "opt": {9}, "enc": {2}, "runs": {0}, "check": {4}, "lq": {1}, "api": {0, 2}, "le": {2}, "stop": {0}}},
 		Thorough: []Grid{{"skel": {0, 1, 2, 3, 4}, "opt": optsComplete, "enc": {1, 2, 0}, "runs": {0, 2}, "check": {4}, "lq": {0, 1, 2, 3}, "api": {0, 1, 2}, "le": {1, 2}, "stop": {0, 2}}},
 		Note:     "L3: scans over skeleton tries (257-bit root, deep caterpillar whose stack outgrows the initial scan stack, prefix keys)"})
@@ -272,7 +288,8 @@ func apiSpecs() []*HarnessSpec {
 			{"n": {3}, "L": {2}, "lens": rng(0, 26), "opt": {0, 1}, "enc": {1}, "check": {13}, "lq": {1, 2, 3}, "cv": {-1}}},
 		Note: "the four information levels built from one symbolic key/value list; found in a mode storing more => found with the same value in every mode storing less; Complete exact"})
 	out = append(out, &HarnessSpec{Name: "l3_api", Pkg: "trie", Property: "C13", Witness: 1,
-		Quick:    []Grid{{"skel": {0, 1, 2}, "opt": {1}, "enc": {1}, "runs": {0, 2}, "check": {13}, "lq": {1, 3}}},
+		Quick: []Grid{{"skel": {0, 1, 2}, "opt": {1}, "enc": {1}, "runs": {0, 2}, "check": {13}, "lq": {1, 3}},
+			{"skel": step(100, 150, 5), "opt": {1}, "enc": {1}, "runs": {0, 3}, "check": {13}, "lq": {1}}},
 		Thorough: []Grid{{"skel": {0, 1, 2, 3, 4}, "opt": {0, 1}, "enc": {1}, "runs": {0, 2}, "check": {13}, "lq": {0, 1, 2, 3, 4, 5}}},
 		Note:     "L3: same on skeleton key sets"})
 	// ---- C19 String ----
@@ -283,7 +300,8 @@ func apiSpecs() []*HarnessSpec {
 			{"n": {2}, "L": {2}, "lens": rng(0, 8), "opt": optsDistinct, "enc": {1, 0, 3}, "check": {19}, "lq": {0}, "cv": {0, 2}, "alpha": {1}}},
 		Note: "String() on every build path: no panic, one line per node, leaf lines carry the retained (concrete) values in key order"})
 	out = append(out, &HarnessSpec{Name: "l3_api", Pkg: "trie", Property: "C19", Witness: 1,
-		Quick:    []Grid{{"skel": {0, 1, 2, 3, 4, 5, 6, 7, 8}, "opt": {16, 9}, "enc": {1}, "runs": {0, 2}, "check": {19}, "lq": {0}, "loaded": {0, 1}}},
+		Quick: []Grid{{"skel": {0, 1, 2, 3, 4, 5, 6, 7, 8}, "opt": {16, 9}, "enc": {1}, "runs": {0, 2}, "check": {19}, "lq": {0}, "loaded": {0, 1}},
+			{"skel": step(100, 150, 1), "opt": {16, 9}, "enc": {1}, "runs": {0}, "check": {19}, "lq": {0}, "loaded": {0}}},
 		Thorough: []Grid{{"skel": {0, 1, 2, 3, 4, 5, 6, 7, 8, 9}, "opt": optsDistinct, "enc": {1, 3}, "runs": {0, 1, 2, 3}, "check": {19}, "lq": {0}, "loaded": {0, 1}}},
 		Note:     "String() on skeleton tries incl. short-node tables and a 257-bit root"})
 	// ---- C05 round trip / determinism / residue ----
@@ -295,7 +313,8 @@ func apiSpecs() []*HarnessSpec {
 			{"n": {3}, "L": {2}, "lens": rng(0, 26), "opt": optsFew, "enc": {1}, "check": {5}, "lq": {1, 2}, "cv": {-1}}},
 		Note: "Unmarshal(Marshal(t)) answers Get/GetID/RangeGet/Search/scan/Stat identically for a symbolic query (codec stub, A-PB); re-marshal and second build give deep-equal messages under all map iteration orders; byte identity is asserted on the native replays only"})
 	out = append(out, &HarnessSpec{Name: "l3_api", Pkg: "trie", Property: "C05", Witness: 1,
-		Quick:    []Grid{{"skel": {0, 1, 2, 4, 5, 10}, "opt": {16, 9}, "enc": {1}, "runs": {0, 2}, "check": {5}, "lq": {1, 2}}},
+		Quick: []Grid{{"skel": {0, 1, 2, 4, 5, 10}, "opt": {16, 9}, "enc": {1}, "runs": {0, 2}, "check": {5}, "lq": {1, 2}},
+			{"skel": step(100, 150, 10), "opt": {16, 9}, "enc": {1}, "runs": {0}, "check": {5}, "lq": {1}}},
 		Thorough: []Grid{{"skel": {0, 1, 2, 3, 4, 5, 6, 7, 8, 10}, "opt": optsDistinct, "enc": {1, 2}, "runs": {0, 2}, "check": {5}, "lq": {0, 1, 2, 3, 4}}},
 		Note:     "L3: round trip and determinism on skeleton tries (short-node tables with ties in the bitmap-frequency table)"})
 	out = append(out, &HarnessSpec{Name: "l2_residue", Pkg: "trie", Property: "C05", Witness: 1,
@@ -393,7 +412,9 @@ func apiSpecs() []*HarnessSpec {
 		Note: "message of the current builder rewritten by writer model G.2 into the 0.5.10/0.5.11 layout (nopref / innpref / allpref) -> real Unmarshal (before000512InnerPrefixTobitstr, before000512FixLeafSize, init) -> same answers as the index it encodes for a symbolic query; exact absent-key answers and scans for allpref"})
 	out = append(out, &HarnessSpec{Name: "l3_legacy", Pkg: "trie", Property: "C06", Witness: 1,
 		Quick: []Grid{{"skel": {0, 1, 2, 8}, "model": {0}, "variant": {0, 1, 3}, "opt": {0}, "lq": {1}},
-			{"skel": {0, 1, 8, 9}, "model": {1}, "variant": {0}, "opt": {0, 2, 8}, "lq": {1}}},
+			{"skel": {0, 1, 8, 9}, "model": {1}, "variant": {0}, "opt": {0, 2, 8}, "lq": {1}},
+			{"skel": step(100, 150, 2), "model": {0}, "variant": {1}, "opt": {0}, "lq": {0}},
+			{"skel": step(100, 150, 2), "model": {1}, "variant": {0}, "opt": {0, 8}, "lq": {0}}},
 		Thorough: []Grid{{"skel": {0, 1, 2, 3, 4, 7, 8, 9}, "model": {0}, "variant": {0, 1, 3, 4}, "opt": {0}, "lq": {1, 2}},
 			{"skel": {0, 1, 2, 3, 4, 5, 7, 8, 9}, "model": {1}, "variant": {0}, "opt": {0, 2, 8, 9}, "lq": {1, 2, 3}}},
 		Note: "L3: skeleton key sets (incl. 64 and 128 leaves, prefix keys, bytes >= 0x80) written by both writer models and loaded; every key answers, and a symbolic query answers as on the index built by the current code"})
